@@ -103,6 +103,45 @@ def check_stack(run, db):
             run.broke('top() of %s: the marker construction was not found' % strip_ns(cls))
             continue
         want = linear.sub(linear.lin(idx_t['args'][0], {}), {'$m.index': 1})
+        # an index that is not computed from the arena on demand but kept in a member is only the block index if every way out of
+        # every member function that changes the arena's block count - also the exceptional ones - has updated it afterwards
+        idx_lin = linear.lin(idx_t['args'][0], {})
+        if not any('arena_.size()' in a for a in idx_lin):
+            fields = [a for a in idx_lin if a.startswith('this.') and '(' not in a]
+            if len(fields) != 1 or idx_lin != {fields[0]: 1}:
+                run.broke('top() of %s stores the index %s: neither computed from the arena nor a member' % (strip_ns(cls), idx))
+                continue
+            F = fields[0]
+            stale = []
+            for g in fns:
+                if g.pattern or g.rec.get('constm') or g.kind in ('dtor',):
+                    continue
+                if not any(t.get('short') in ('allocate_block', 'deallocate_block') and sym.canon(t.get('recv') or {}) == 'this.arena_' for e, t in flow.call_events(g)):
+                    continue
+                try:
+                    SG = fwd.summarize(g, db=db, exceptional=True, roles={}, no_forward=True)
+                except sym.PathLimit as ex:
+                    run.broke(str(ex))
+                    continue
+                for sg in SG:
+                    if sg.end not in ('return', 'propagate'):
+                        continue
+                    thrower = sg.throws[2].get('id') if sg.throws is not None and isinstance(sg.throws[2], dict) else None
+                    last = -1
+                    for k, c in enumerate(sg.calls):
+                        if c[1].get('k') == 'call' and c[1].get('short') in ('allocate_block', 'deallocate_block') and c[0].startswith('this.arena_.') \
+                                and c[1].get('id') != thrower and (sg.throw_at_call is None or k < sg.throw_at_call):
+                            last = k
+                    if last < 0:
+                        continue
+                    upd = [w for w in sg.writes if w[0] == F and w[4] > last]
+                    if not upd:
+                        how = ('`%s` throws' % tstr(sg.throws[2])[:60]) if sg.throws is not None else 'the function returns'
+                        stale.append('%s: the arena gains or drops a block but %s is not updated before %s' % (g.short if g.kind == 'method' else g.kind, F, how))
+            if stale:
+                run.violation('R-TERM.index', inst, top.loc, 'markers store the member %s as block index; it goes stale - %s: a later unwind to an older marker drops the wrong number of blocks'
+                              % (F, '; '.join(sorted(set(stale))[:2])), site={'function': 'memory_stack::top', 'role': 'cached block index is current at every exit'})
+                continue
         cnt, how = loop_trip_count(unw, 'deallocate_block', 'this.arena_', db=db)
         site = {'function': 'memory_stack::unwind', 'role': 'blocks dropped == index difference'}
         if cnt == 'VARIANT':
